@@ -104,15 +104,61 @@ def State.validBlock (s : State) (b : Header) : Bool :=
       else !m.bad
   | _, _ => true
 
-def State.processBlock (s : State) (b : Header) : State × Res :=
-  let exists_ := (s.node.header b.id).isSome || s.node.isOrphan b.id
-  let bestH := match s.node.header s.node.best with | some h => h.height | none => 0
-  if !(exists_ && bestH ≥ b.height) && (s.node.header b.parent).isSome && !s.validBlock b then
-    -- saveBlock: ValidateBlock fails before anything is touched
-    (s, .err)
+/-! ### the chain core with `ValidateBlock` where the real code has it
+
+`Chain.saveBlock` validates the block (after it has read the parent header and the previous
+checkpoint) at BOTH of its call sites: in `processBlock` for a block that arrives after its
+parent, and in `saveSubBlock` for a block that leaves the orphan pool.  The three functions below
+are `Node.State.saveBlock / saveSubBlock / processBlock` with that call inserted; `validBlock` is
+evaluated against the node state of that moment (in which the parent is stored).  `env` supplies
+the static tables (`metas`, `interval`) — the functions thread the evolving node state. -/
+
+/-- `validBlock` of `b` in node state `n`, with the static tables of `env` -/
+def State.validIn (env : State) (n : Node.State) (b : Header) : Bool := ({ env with node := n }).validBlock b
+
+/-- `Chain.saveBlock`: ValidateBlock, then casper.ApplyBlock + store.SaveBlock -/
+def State.saveBlockVn (env : State) (n : Node.State) (b : Header) : Node.State × Bool :=
+  if !env.validIn n b then (n, false) else n.saveBlock b
+
+/-- `Chain.saveSubBlock`: a refused orphan (invalid, or refused by casper) is dropped from the
+    pool; the orphans waiting for IT stay in the pool -/
+def State.saveSubBlockVn (env : State) : Nat → Node.State → Nat → Node.State
+  | 0, n, _ => n
+  | fuel + 1, n, id =>
+    match alistGet n.prevOrphans id with
+    | none => n
+    | some waiting =>
+      waiting.foldl (fun st o =>
+        match lookupHeader st.orphans o with
+        | none => st
+        | some ob =>
+          let (st1, ok) := env.saveBlockVn st ob
+          if !ok then st1.orphanDelete o else State.saveSubBlockVn env fuel st1 o) n
+
+/-- `Chain.processBlock` (the chain/casper part; the ledger follows in `settle`) -/
+def State.chainProcessBlock (s : State) (b : Header) : Node.State × Res :=
+  let n := s.node
+  let exists_ := (n.header b.id).isSome || n.isOrphan b.id
+  let bestH := match n.header n.best with | some h => h.height | none => 0
+  if exists_ && bestH ≥ b.height then
+    (n, if n.isOrphan b.id then .orphan else .ok)
+  else if (n.header b.parent).isNone then
+    (n.orphanAdd b, .orphan)
   else
-    let (n', r) := s.node.processBlock b
-    s.settle n' r
+    let (s1, ok) := s.saveBlockVn n b
+    if !ok then (s1, .err) else
+    let s2 := State.saveSubBlockVn s s1.fuel s1 b.id
+    let (s3, ok3) := s2.tryReorganize s2.bestChain
+    (s3, if ok3 then .ok else .err)
+
+/-- `Chain.saveBlock` on the current state -/
+def State.saveBlockV (s : State) (b : Header) : Node.State × Bool := s.saveBlockVn s.node b
+/-- `Chain.saveSubBlock` on the current state -/
+def State.saveSubBlockV (s : State) (fuel : Nat) (id : Nat) : Node.State := State.saveSubBlockVn s fuel s.node id
+
+def State.processBlock (s : State) (b : Header) : State × Res :=
+  let (n', r) := s.chainProcessBlock b
+  s.settle n' r
 
 def State.authVerification (s : State) (order src tgt : Nat) (sigOk : Bool) : State × Res :=
   let (n', r) := s.node.authVerification order src tgt sigOk
